@@ -941,9 +941,20 @@ func checkStackCtl(w *World, r *Report) {
 				if err != "" {
 					return err
 				}
-				if n <= 0 || n > 5 {
+				if n == 0 && failed {
+					// TN5177 asks for a non-negative count; a count of 0 rotates nothing. Rejecting it is
+					// the library's (conservative) choice; accepting it must leave the operands alone.
+					continue
+				}
+				if n < 0 || n > 5 {
 					if !failed {
 						return fmt.Sprintf("roll with count %d over five operands is accepted", n)
+					}
+					continue
+				}
+				if n == 0 {
+					if !eq(out, syms(5)) {
+						return fmt.Sprintf("`s0 s1 s2 s3 s4 0 %d roll` leaves %v, defined is the five operands unchanged", j, out)
 					}
 					continue
 				}
